@@ -456,11 +456,14 @@ func cxRunMarshalLists(r *rng, rounds int) {
 		if addrs == nil {
 			da, di = "L", "L" // a nil list and an empty one marshal alike
 		}
-		one("addrs4", da, krpc.CompactIPv4NodeAddrs(addrs).MarshalBinary, krpc.CompactIPv4NodeAddrs(addrs).MarshalBencode)
-		one("addrs6", da, krpc.CompactIPv6NodeAddrs(addrs).MarshalBinary, krpc.CompactIPv6NodeAddrs(addrs).MarshalBencode)
-		one("infos4", di, krpc.CompactIPv4NodeInfo(infos).MarshalBinary, krpc.CompactIPv4NodeInfo(infos).MarshalBencode)
-		one("infos6", di, krpc.CompactIPv6NodeInfo(infos).MarshalBinary, krpc.CompactIPv6NodeInfo(infos).MarshalBencode)
-		one("hashes", cxDumpHashes(hashes), krpc.CompactInfohashes(hashes).MarshalBinary, krpc.CompactInfohashes(hashes).MarshalBencode)
+		// through variables: the harness must still build when a method moves to the pointer receiver
+		a4, a6 := krpc.CompactIPv4NodeAddrs(addrs), krpc.CompactIPv6NodeAddrs(addrs)
+		i4, i6, hs := krpc.CompactIPv4NodeInfo(infos), krpc.CompactIPv6NodeInfo(infos), krpc.CompactInfohashes(hashes)
+		one("addrs4", da, a4.MarshalBinary, a4.MarshalBencode)
+		one("addrs6", da, a6.MarshalBinary, a6.MarshalBencode)
+		one("infos4", di, i4.MarshalBinary, i4.MarshalBencode)
+		one("infos6", di, i6.MarshalBinary, i6.MarshalBencode)
+		one("hashes", cxDumpHashes(hashes), hs.MarshalBinary, hs.MarshalBencode)
 		if len(addrs) > 0 {
 			one("nodeaddr", cxDumpAddr(addrs[0]), addrs[0].MarshalBinary, addrs[0].MarshalBencode)
 			b, err := cxContainBytes(infos[0].MarshalBinary)
@@ -1282,4 +1285,6 @@ func codecEngine(seed uint64, tier string, _ []string) {
 	codecBinary(r.sub(3), scale)
 	// (c) nodes file
 	codecNodesFile(r.sub(4), scale)
+	// (d), (e) the encoders under other callers than bencode.Marshal(krpc.Msg): codec_hold.go
+	codecHold(r.sub(5), scale)
 }
